@@ -54,24 +54,43 @@ def _intvalued(xs) -> bool:
     return all(float(x) == round(float(x)) for x in xs)
 
 
-def annotate(draw, c, depth=0):
+MAGS = (1e-9, 1e-12, 1e-10, 1e9, 1e12)
+
+
+def rescale(c, k, f):
+    """(round 3, classes 6 and 8) the tensor-like sub-case ``c`` in units of ``f``: values far below every absolute
+    tolerance (1e-9 .. 1e-12) or far above one.  The values themselves are rewritten, so every builder sees them."""
+    if k == "tensor":
+        c["data"] = [v * f for v in c["data"]]
+    elif k == "sptensor":
+        c["vals"] = [v * f for v in c["vals"]]
+    elif k == "ktensor":
+        c["weights"] = [v * f for v in c["weights"]]
+    elif k == "ttensor":
+        c["core"] = [v * f for v in c["core"]]
+    c["_mag"] = f
+
+
+def annotate(draw, c, depth=0, mag=True):
     if not isinstance(c, dict) or depth > 6:
         return
     k = case_kind(c)
     shape = list(c.get("shape") or [])
+    if mag and k and len(shape) >= 1 and draw(st.integers(0, 5)) == 0:
+        rescale(c, k, draw(st.sampled_from(MAGS)))
     if k == "tensor" and len(shape) >= 1:
         c["_st"] = draw(ST.dense_state(shape))
-        if _intvalued(c["data"]):
+        if not c.get("_mag") and _intvalued(c["data"]):
             c["_dt"] = draw(st.sampled_from(INT_DT))
     elif k == "sptensor" and len(shape) >= 1:
         c["_st"] = draw(ST.sparse_state(shape, len(c["subs"])))
-        if _intvalued(c["vals"]):
+        if not c.get("_mag") and _intvalued(c["vals"]):
             c["_dt"] = draw(st.sampled_from(INT_DT))
     elif k == "ktensor" and len(shape) >= 1:
         c["_st"] = draw(ST.kruskal_state(shape, c["rank"]))
     elif k == "ttensor" and len(shape) >= 1:
         c["_st"] = draw(ST.tucker_state(dict(shape=shape, cshape=c["cshape"], core=c["core"], sparse_core=c.get("sparse_core"))))
-        if _intvalued(c["core"]) and all(_intvalued(r) for f in c["factors"] for r in f):
+        if not c.get("_mag") and _intvalued(c["core"]) and all(_intvalued(r) for f in c["factors"] for r in f):
             c["_dt"] = draw(st.sampled_from(INT_DT))  # core storage
             c["_fdt"] = [draw(st.sampled_from(INT_DT)) for _ in shape]  # factor matrices
     for key in list(c):
@@ -79,11 +98,11 @@ def annotate(draw, c, depth=0):
             continue
         v = c[key]
         if isinstance(v, dict):
-            annotate(draw, v, depth + 1)
+            annotate(draw, v, depth + 1, mag)
         elif isinstance(v, list):
             for x in v:
                 if isinstance(x, dict):
-                    annotate(draw, x, depth + 1)
+                    annotate(draw, x, depth + 1, mag)
 
 
 def annotated(strategy, seq=True, heavy=False):
@@ -93,8 +112,11 @@ def annotated(strategy, seq=True, heavy=False):
     def s(draw, tier):
         c = draw(strategy(tier))
         if isinstance(c, dict):
-            annotate(draw, c)
-            c["_aux"] = draw(st.sampled_from([None, None, None, "int64", "ones", "zeros", "zero-row", "F-order", "strided"]))
+            # (the algorithms have preconditions on their data - counts, non-negativity - and run long on badly scaled
+            # data: their cases keep magnitudes of order one)
+            annotate(draw, c, mag=not heavy)
+            c["_aux"] = draw(st.sampled_from([None, None, None, None, "int64", "ones", "zeros", "zero-row", "F-order", "strided",
+                                              "identity", "near-identity", "tiny", "huge"]))
             if seq:
                 # second call on the same operands (most cases); primed-edit-call history (some)
                 c["_seq"] = dict(again=(draw(st.integers(0, 3)) == 0) if heavy else (draw(st.integers(0, 3)) > 0),
@@ -159,6 +181,8 @@ def state_labels(c, prefix="") -> List[str]:
                 out.append(f"{prefix}state-core-{c['_st']['core'].get('how', 'ctor')}")
         if k and c.get("_dt"):
             out.append(f"{prefix}dtype-{k}-{c['_dt']}")
+        if k and c.get("_mag"):
+            out.append(f"{prefix}mag-{k}-{c['_mag']:g}")
         for key, v in c.items():
             if key.startswith("_"):
                 continue
@@ -203,6 +227,15 @@ def aux(c, a):
         if b.ndim >= 1 and b.shape[0] >= 1:
             b[0] = 0
         return b
+    if m in ("identity", "near-identity"):
+        # (round 3) the identity matrix / first unit vector, exactly or perturbed by 1e-9: what a tolerance-based
+        # "nothing to do" shortcut would take for the identity and answer with the operand itself
+        b = np.eye(*a.shape) if a.ndim == 2 else (np.arange(a.size) == 0).astype(float).reshape(a.shape)
+        return b if m == "identity" else b + 1e-9 * np.sign(a)
+    if m == "tiny":
+        return a * 1e-9
+    if m == "huge":
+        return a * 1e9
     if m == "F-order":
         return np.asfortranarray(a)
     if m == "strided" and a.ndim >= 1 and a.size:
